@@ -142,6 +142,10 @@ def corpus():
     es, ns = [0.0, 4.0, 0.0, 4.0, 2.0], [0.0, 0.0, 4.0, 4.0, 1.0]
     cs = [mk_mask(es, ns, [2.0, 5.0, 0.0, 1.0, 2.0, -0.5], [2.0, 5.0, 2.0, 3.0, 0.0, 2.0], [6], None, None, "corpus-square"),
           mk_mask(es, ns, None, None, None, None, ([-1.0, 1.0, 3.0, 5.0], [0.5, 2.5, 4.5]), "corpus-grid"),
+          # data coordinates in a narrow integer type whose EXTENT overflows it (int16 metres spanning -20000 .. 20000)
+          mk_mask([-20000.0, 20000.0, -15000.0, 18000.0, 0.0, 5000.0], [-18000.0, -20000.0, 20000.0, 16000.0, 3000.0, -2000.0],
+                  [float(x) for x in range(-24000, 24001, 6000) for _ in range(9)], [float(y) for _ in range(9) for y in range(-24000, 24001, 6000)],
+                  [81], None, None, "corpus-narrow-int"),
           # non-linear projections: slanted hull edges bend, so the hull must be taken of the PROJECTED points (and of nothing else)
           mk_mask([0.0, 4.0, 0.0, 1.0, 3.0, 0.5], [0.0, 0.0, 4.0, 1.0, 0.5, 3.0], [float(x) for x in range(5) for _ in range(5)],
                   [float(y) for _ in range(5) for y in range(5)], [25], ["cube2", [1.0]], None, "corpus-nonlinear-projection"),
@@ -279,6 +283,9 @@ def impl(case):
                 es, ns, qe, qn, shape2d, proj, grid = a[:7]
                 f = None if proj is None else PROJS[proj[0]](proj[1])
                 dc = (np.array(es), np.array(ns))
+                if case["kind"].endswith("narrow-int"):
+                    # whole-metre coordinates stored as int16: their extent does not fit the type, the hull must not care
+                    dc = (np.array(es).astype("int16"), np.array(ns).astype("int16"))
                 arr = vd.convexhull_mask(dc, coordinates=(C.mkarr(qe, shape2d, "qe:" + case["op"]), C.mkarr(qn, shape2d, "qn:" + case["op"])), projection=f)
                 if list(arr.shape) != list(shape2d):
                     raise RuntimeError("wrong output shape")
